@@ -34,12 +34,6 @@ theorem hasAttrNsList_false_of_mem (env : Env) (ns : Nat) : ∀ (ks : List Tree)
     · exact h.1
     · exact hasAttrNsList_false_of_mem env ns ks h.2 k hk
 
-theorem hasDefaultNamespace_mono {l' l : List (Nat × Nat)} (h : ∀ kv ∈ l', kv ∈ l)
-    (hd : FStack.hasDefaultNamespace [l'] = true) : FStack.hasDefaultNamespace [l] = true := by
-  simp only [FStack.hasDefaultNamespace, FStack.top, List.headD_cons, List.any_eq_true] at hd ⊢
-  obtain ⟨kv, hkv, hp⟩ := hd
-  exact ⟨kv, h kv hkv, hp⟩
-
 /-- The context of a subtree, as far as it does not depend on the subtree. -/
 structure KeepCtx (A A' : List (Nat × Nat)) (tr : Tracker) : Prop where
   sub : ∀ kv ∈ A', kv ∈ A
@@ -168,31 +162,40 @@ theorem keep_tree (env : Env) : ∀ (x : Tree) (A A' : List (Nat × Nat)) (tr : 
       simp only [wr, nsDecls_node, hf', hW', Bool.and_eq_true]
       refine ⟨?_, ?_⟩
       · -- the element's own names
-        simp only [elementOk, Bool.and_eq_true] at hwE ⊢
-        obtain ⟨⟨hD, hE⟩, hAll⟩ := hwE
-        simp only [elementFullname_ok, Bool.or_eq_true] at hE ⊢
-        simp only [attributeFullname_ok, List.all_eq_true, Bool.or_eq_true, hattrs] at hAll ⊢
+        simp only [elementOk, Bool.and_eq_true, elementFullname_ok, attributeFullname_ok,
+          List.all_eq_true, Bool.or_eq_true, hattrs] at hwE ⊢
+        obtain ⟨⟨hwD, hwE1⟩, hwE2⟩ := hwE
+        have hwE : _ ∧ _ := ⟨hwE1, hwE2⟩
         refine ⟨⟨?_, ?_⟩, ?_⟩
-        · -- no default namespace appears that was not there before
-          rw [Bool.not_eq_true'] at hD ⊢
-          apply Bool.eq_false_iff.2
-          intro hcon
-          apply Bool.eq_false_iff.1 hD
-          simp only [Bool.and_eq_true] at hcon ⊢
-          refine ⟨hcon.1, hasDefaultNamespace_mono ?_ hcon.2⟩
-          intro kv hkv
-          simp only [List.mem_cons] at hkv ⊢
-          rcases hkv with h | h
-          · exact .inl h
-          · exact .inr (hsub1 kv h)
-        · rcases hE with h | h
+        · -- no default namespace appears: the rebuilt frame is a subset of the old one
+          cases hno : (env.nsOfName name == Env.noNamespace) with
+          | false => simp
+          | true =>
+            simp only [hno, Bool.true_and, Bool.not_eq_eq_eq_not, Bool.not_true] at hwD ⊢
+            cases hd : FStack.hasDefaultNamespace [(Env.xmlPrefix, Env.xmlNamespace) :: (A' ++ f')] with
+            | false => rfl
+            | true =>
+              exfalso
+              simp only [FStack.hasDefaultNamespace, FStack.top, List.headD_cons, List.any_eq_true] at hd
+              obtain ⟨kv, hkv, hcond⟩ := hd
+              have : FStack.hasDefaultNamespace
+                  [(Env.xmlPrefix, Env.xmlNamespace) :: (A ++ declsOfKids ks)] = true := by
+                simp only [FStack.hasDefaultNamespace, FStack.top, List.headD_cons, List.any_eq_true]
+                refine ⟨kv, ?_, hcond⟩
+                simp only [List.mem_cons] at hkv ⊢
+                rcases hkv with h | h
+                · exact .inl h
+                · exact .inr (hsub1 kv h)
+              rw [this] at hwD
+              cases hwD
+        · rcases hwE.1 with h | h
           · exact .inl h
           · simp only [knownIn_cons, Bool.or_eq_true] at h ⊢
             rcases h with h | h
             · exact .inr (.inl h)
             · exact .inr (.inr (hkn1 _ h))
         · intro n hn
-          rcases hAll n hn with h | h
+          rcases hwE.2 n hn with h | h
           · exact .inl h
           · simp only [attrKnownIn_cons, Bool.or_eq_true] at h ⊢
             rcases h with h | h
